@@ -8,7 +8,7 @@ import c02_gen as G
 
 ID = "C02"
 THEOREMS = "Properties/C02.v"
-HARNESS = []
+HARNESS = ["c02"]
 LEVEL = "proof"
 READY = False
 TRUSTED_BASE = [
@@ -66,14 +66,17 @@ def search(ctx, info, sysd, broken, log, n, steps):
         if lid in seen:
             continue
         seen.add(lid)
+        real = {"status": "not run (the step harness harness/cmd/c02 exists for locksvc only)"}
+        if sysd["name"] == "locksvc":
+            real = G.confirm_on_real_go_locksvc(info, m, log)
         ctx.failures.append({
             "signature": "step-differs:" + lid,
             "what": "the generated Go of %s takes a different step than the TLA+ action from a reachable state%s" % (
                 lid, " (its obligation no longer checks)" if lid in broken else ""),
             "case": {"system": sysd["name"], "go": sysd["go"], "tla": sysd["tla"], "rnd": m["rnd"], "steps": m["steps"],
-                     "process": m.get("process"), "label": m.get("label"), "self": m.get("self"),
+                     "process": m.get("process"), "label": m.get("label"), "self": m.get("self"), "schedule": m.get("sched"),
                      "choices": m.get("choices"), "pre_state": m.get("state")},
-            "obs": {"go_model": m.get("go"), "confirmed_on_real_go": "not run (no step harness for this system)"},
+            "obs": {"go_model": m.get("go"), "real_go": real},
             "exp": {"tla_model": m.get("tla")}})
     return cover, err
 
@@ -144,6 +147,20 @@ def run(ctx):
             n, steps = ((30, 300) if broken else (8, 120)) if ctx.tier == "quick" else (300, 300)
             cover, err = search(ctx, info, sysd, broken, log, n, steps)
             st["differential_walk"] = {"walks": n, "max_steps": steps, "committed_steps_per_label": cover, "error": err}
+        if sysd["name"] == "locksvc" and walkable and not ctx.replay:
+            # tie A validated by B: the regenerated Go model must predict what the REAL generated archetypes do, attempt by attempt
+            ncase, nstep = (12, 40) if ctx.tier == "quick" else (150, 60)
+            cases = [{"id": i, "steps": [{"p": ctx.rng.randrange(0, 4), "ks": [ctx.rng.randrange(0, 6) for _ in range(2)]}
+                                         for _ in range(nstep)]} for i in range(ncase)]
+            ncmp, mm, err = G.real_go_locksvc(info, cases, log)
+            st["real_go_validation"] = {"schedules": ncase, "attempts_compared": ncmp, "mismatches": len(mm), "error": err}
+            if err:
+                ctx.breaks.append({"what": "C02 locksvc: validation against the real generated Go did not run: " + err[:200], "detail": err})
+            for m in mm[:3]:
+                ctx.breaks.append({"what": "C02 locksvc: the regenerated Go model of %s.%s does not predict what the real generated Go did" % (m.get("process"), m.get("label")),
+                                   "case": m, "impl": m.get("real"), "model": m.get("gomodel")})
+            for i in range(ncmp):
+                ctx.add_case("real-go locksvc %d %d" % (ctx.seed, i), False)
         per_system[sysd["name"]] = st
     ctx.extra["excluded_pairs"] = [{"pair": e["go"], "reason": e["reason"]} for e in G.EXCLUDED]
     if ctx.tier == "thorough" and not ctx.replay:
